@@ -4303,3 +4303,64 @@ def key_compare_rules(ctx):
             if not ok_:
                 ctx.violate('arg-flow|%s|swapped-component|%d' % (f.path, cm.index(c)), 'a component comparison in this Key::compare does not compare the first key with the second (receiver from args %s, operand from args %s): the order is reversed or mixed for that component' % (sorted(a0), sorted(a1)), f, c.line)
     ctx.check(n >= 15, 'floor|key-compare-impls', 'Key::compare implementations analysed: %d' % n)
+
+
+def child_pair_rules(ctx):
+    """A branch entry is (child page, child checksum).  Wherever the mutators copy an existing entry into a
+    new or rewritten branch, both halves come from the same place: the same tuple / struct / enum payload,
+    or `child_page(i)` and `child_checksum(i)` of the same accessor and index; a page built in this
+    transaction carries the DEFERRED placeholder.  A checksum taken from a different entry is committed
+    unchanged when the child is clean (checksums are only recomputed for dirty pages)."""
+    ctx.set_rule('C10.R9', 'a child page number and its checksum travel together (same source, or DEFERRED for a fresh page)')
+    n = 0
+    for f in ctx.facts.fn_list:
+        if f.kind == 'closure' and False:
+            continue
+        s_ = None
+        for c in f.calls:
+            if f.blocks[c.bb]['c']:
+                continue
+            if c.matches('BranchBuilder::push_child'):
+                k = 1
+            elif c.matches('BranchBuilder::replace_child') or c.matches('BranchMutator::write_child_page'):
+                k = 2
+            else:
+                continue
+            if len(c.t['a']) < k + 2:
+                continue
+            s_ = s_ or core.sym(f)
+            n += 1
+            tp = s_.operand(c.t['a'][k])
+            tc = s_.operand(c.t['a'][k + 1])
+            ok_ = False
+            why = ''
+            if tc[0] == 'const':
+                ok_ = str(tc[2]) == '999'
+                why = 'constant checksum %s is not DEFERRED' % (tc[2],)
+            elif tp[0] == 'place' and tc[0] == 'place':
+                pp = tuple(x for x in tp[2] if x != '*')
+                pc = tuple(x for x in tc[2] if x != '*')
+                ok_ = tp[1] == tc[1] and pp[:-1] == pc[:-1] and pp != pc
+                why = 'page comes from %s, checksum from %s' % (s_.describe(tp), s_.describe(tc))
+            elif tp[0] == 'call' and tc[0] == 'call':
+                cp_ = core.CallSite(f, tp[1], f.blocks[tp[1]]['t'])
+                cc_ = core.CallSite(f, tc[1], f.blocks[tc[1]]['t'])
+                if cp_.matches('Option::unwrap') and cc_.matches('Option::unwrap') and cp_.t['a'] and cc_.t['a']:
+                    ip = s_.operand(cp_.t['a'][0])
+                    ic = s_.operand(cc_.t['a'][0])
+                    if ip[0] == 'call' and ic[0] == 'call':
+                        a_ = core.CallSite(f, ip[1], f.blocks[ip[1]]['t'])
+                        b_ = core.CallSite(f, ic[1], f.blocks[ic[1]]['t'])
+                        if a_.matches('BranchAccessor::child_page') and b_.matches('BranchAccessor::child_checksum'):
+                            ok_ = s_.operand(a_.t['a'][0]) == s_.operand(b_.t['a'][0]) and s_.operand(a_.t['a'][1]) == s_.operand(b_.t['a'][1])
+                            why = 'child_page and child_checksum are read with different accessors or indexes'
+                        else:
+                            why = 'not child_page / child_checksum'
+                else:
+                    why = 'page from %s, checksum from %s' % (s_.describe(tp), s_.describe(tc))
+            else:
+                why = 'page comes from %s, checksum from %s' % (s_.describe(tp), s_.describe(tc))
+            ctx._ob(ok_, ctx.sample('pair', f, c.line, 'child page and checksum from one source'))
+            if not ok_:
+                ctx.violate('pair|%s|%s' % (f.path, c.callee.split('::')[-1]), 'a branch entry is assembled from a page number and a checksum of different origin (%s)' % why, f, c.line)
+    ctx.check(n >= 35, 'floor|child-pair-sites', 'branch entry writes analysed: %d' % n)
